@@ -1,7 +1,7 @@
 """Shared driver of the checks about the shipped algorithms (C01, C02, C03, C05, C13, C15)."""
 import json
 from vlib import core
-from harness import k_translator, gen, implrun
+from harness import k_translator, k_semeq, gen, implrun
 from oracles import o_main
 
 
@@ -21,6 +21,7 @@ def run(ctx, vfiles, props, hermitian=True, classify=None, extra=None, ncases=No
     ctx.tie("k_translator", k_translator.tie_translator)
     for v in vfiles:
         ctx.proof(v)
+    ctx.tie("k_semeq", k_semeq.tie_semeq, hermitian=hermitian)
     if extra:
         extra(ctx)
     n = ncases or ctx.n(36, 700)
